@@ -30,6 +30,9 @@ def opInDomain : Op → Bool
      times are never 0 and lie within the int64 range -/
   | .setdel _ _ _ a => decide (0 < a) && decide (a ≤ MaxNanoTime)
   | .pre _ to => decide (to ≤ MaxNanoTime)
+  /- truncation (`TruncateShardGroups`, no production caller) leaves the domain of the history
+     theorems: truncated groups overlap their successors in raw bounds -/
+  | .trunc _ => false
   | _ => true
 
 /-- `[start, end)` contains `t` -/
